@@ -17,7 +17,6 @@ import (
 	"encoding/json"
 	"fmt"
 	"strings"
-	"testing"
 	"time"
 
 	corev1 "k8s.io/api/core/v1"
@@ -442,6 +441,7 @@ type c08FDim struct {
 
 func c08FilterPart(env *mc.Env, part string, rule string, dims []c08FDim) {
 	res := mc.NewResult("C08", part, "enumeration")
+	t0 := env.Elapsed()
 	var replay c08FCase
 	if p, ok := env.ReplayData(&replay); ok {
 		if p == part {
@@ -503,11 +503,11 @@ func c08FilterPart(env *mc.Env, part string, rule string, dims []c08FDim) {
 		"which thresholds apply to a pod follows the documented selection (prod thresholds for prod pods when configured, else aggregated when configured, else whole-node; the node's usage-thresholds annotation overrides the arguments; threshold 0 = not thresholded)",
 		"existing pods carry a PodScheduled condition; reported usages and allocatables are exact multiples so that no estimate involves rounding; utilisation is measured against the raw (un-amplified) allocatable when the node carries it",
 	}
+	res.WallS = (env.Elapsed() - t0).Seconds()
 	env.Emit(res)
 }
 
-func TestVerifC08Filter(t *testing.T) {
-	env := mc.LoadEnv()
+func c08FilterParts(env *mc.Env) {
 	thrCPU := []int64{0, 50, 65, 100}
 	thrMem := []int64{0, 70, 100}
 	factors := []c08Vec{{85, 70}, {100, 100}}
